@@ -67,6 +67,37 @@ var c01Cells = []struct{ name, prog string }{
 	{"closure.read.recursion", "(defun c01rec# (vn vf) (if (< vn 1) (funcall vf 0) (c01rec# (- vn 1) (if vf vf (lambda (vz) (vtr vn)))))) (c01rec# 2 nil)"},
 	{"closure.escape.upward", "(defun c01mk# (vx) (lambda (vz) (+ vx vz))) (let ((vx 100)) (funcall (c01mk# 1) 10))"},
 	{"closure.fresh-per-call", "(defun c01mk# (vx) (lambda (vz) (setq vx (+ vx vz)))) (let ((vf (c01mk# 1)) (vg (c01mk# 100))) (funcall vf 1) (funcall vg 1) (list (funcall vf 0) (funcall vg 0)))"},
+	// closures that outlive the binding they were created in (called when the let / the function call that made
+	// them has returned), assigning the captured variable from every kind of nested scope of their body
+	{"closure.escaped.setq-direct", "(let ((vf (let ((vc 0)) (lambda (vz) (setq vc (+ vc vz)) (vtr vc))))) (funcall vf 1) (funcall vf 2))"},
+	{"closure.escaped.setq-in-let", "(let ((vf (let ((vc 0)) (lambda (vz) (let ((vq 1)) (setq vc (+ vc vz vq))) (vtr vc))))) (funcall vf 1) (funcall vf 2))"},
+	{"closure.escaped.setq-in-letstar", "(let ((vf (let ((vc 0)) (lambda (vz) (let* ((vq 1) (vr vq)) (setq vc (+ vc vz vr))) (vtr vc))))) (funcall vf 1) (funcall vf 2))"},
+	{"closure.escaped.setq-in-dotimes", "(let ((vf (let ((vc 0)) (lambda (vz) (dotimes (vi 2) (setq vc (+ vc vz vi))) (vtr vc))))) (funcall vf 1) (funcall vf 2))"},
+	{"closure.escaped.setq-in-dolist", "(let ((vf (let ((vc 0)) (lambda (vz) (dolist (vx (quote (1 2))) (setq vc (+ vc vz vx))) (vtr vc))))) (funcall vf 1) (funcall vf 2))"},
+	{"closure.escaped.setq-in-do", "(let ((vf (let ((vc 0)) (lambda (vz) (do ((vi 0 (+ vi 1))) ((>= vi 2)) (setq vc (+ vc vz vi))) (vtr vc))))) (funcall vf 1) (funcall vf 2))"},
+	{"closure.escaped.setq-in-dostar", "(let ((vf (let ((vc 0)) (lambda (vz) (do* ((vi 0 (+ vi 1))) ((>= vi 2)) (setq vc (+ vc vz vi))) (vtr vc))))) (funcall vf 1) (funcall vf 2))"},
+	{"closure.escaped.setq-in-mvb", "(let ((vf (let ((vc 0)) (lambda (vz) (multiple-value-bind (vm vn) (values vz 1) (setq vc (+ vc vm vn))) (vtr vc))))) (funcall vf 1) (funcall vf 2))"},
+	{"closure.escaped.setq-in-block", "(let ((vf (let ((vc 0)) (lambda (vz) (block vb (setq vc (+ vc vz))) (vtr vc))))) (funcall vf 1) (funcall vf 2))"},
+	{"closure.escaped.setq-in-nested-lambda", "(let ((vf (let ((vc 0)) (lambda (vz) (funcall (lambda (vy) (setq vc (+ vc vy))) vz) (vtr vc))))) (funcall vf 1) (funcall vf 2))"},
+	{"closure.escaped.from-defun", "(defun c01mk# (vc) (lambda (vz) (let ((vq 1)) (setq vc (+ vc vz vq))) (vtr vc))) (let ((vf (c01mk# 10)) (vg (c01mk# 20))) (funcall vf 1) (funcall vg 2) (funcall vf 3))"},
+	{"closure.escaped.two-share-one-binding", "(let ((vfs (let ((vc 0)) (list (lambda (vz) (let ((vq vz)) (setq vc (+ vc vq)))) (lambda (vz) (vtr vc)))))) (funcall (car vfs) 5) (funcall (car (cdr vfs)) 0) (funcall (car vfs) 2) (funcall (car (cdr vfs)) 0))"},
+	{"closure.escaped.through-mapcar", "(let ((vf (let ((vc 0)) (lambda (vz) (let ((vq vz)) (setq vc (+ vc vq))))))) (vtr (mapcar vf (quote (1 2 3)))))"},
+	{"closure.escaped.through-apply", "(let ((vf (let ((vc 0)) (lambda (vy vz) (dotimes (vi 1) (setq vc (+ vc vy vz))) (vtr vc))))) (apply vf 1 (quote (2))) (apply vf (quote (3 4))))"},
+	{"closure.escaped.global-not-touched", "(setq vcg# 7) (let ((vf (let ((vcg# 0)) (lambda (vz) (let ((vq 1)) (setq vcg# (+ vcg# vz vq))) (vtr vcg#))))) (funcall vf 1) (vtr vcg#))"},
+	// &rest: a list of the surplus arguments, made for the call
+	{"rest.collects-surplus", "(funcall (lambda (va &rest vr) (vtr (list va vr))) (vtr 1) (vtr 2) (vtr 3))"},
+	{"rest.empty", "(funcall (lambda (va &rest vr) (vtr (list va vr))) 1)"},
+	{"rest.defun-apply", "(defun c01rs# (va &rest vr) (vtr (cons va vr))) (apply (function c01rs#) 1 2 (quote (3 4)))"},
+	{"rest.mapcar-two-lists-own-list-per-call", "(vtr (mapcar (lambda (&rest vr) vr) (quote (1 2 3)) (quote (10 20 30))))"},
+	{"rest.mapcar-list-kept-by-setq", "(let ((vkeep nil)) (mapcar (lambda (va &rest vr) (setq vkeep (cons vr vkeep)) va) (quote (1 2 3)) (quote (10 20 30))) (vtr vkeep))"},
+	{"rest.mapcar-list-captured-by-closure", "(let ((vfs (mapcar (lambda (&rest vr) (lambda (vz) vr)) (quote (1 2)) (quote (10 20))))) (vtr (list (funcall (car vfs) 0) (funcall (car (cdr vfs)) 0))))"},
+	{"rest.funcall-list-independent-of-later-call", "(let ((vf (lambda (&rest vr) vr))) (let ((va (funcall vf 1 2)) (vb (funcall vf 3 4))) (vtr (list va vb))))"},
+	// the same let / function body evaluated again: every evaluation has its own bindings
+	{"let.reevaluated-parallel", "(let ((vx 1) (vout nil)) (dotimes (vi 3) (let ((vx (+ vx 10)) (vy (+ vx 100))) (setq vout (cons (list vx vy) vout)))) (vtr vout))"},
+	{"defun.recursion-frames-independent", "(defun c01rf# (vn) (let ((va (* vn 10))) (if (> vn 0) (c01rf# (- vn 1))) (vtr (list vn va)))) (c01rf# 2) (c01rf# 1)"},
+	{"defun.recursion-after-call-arg", "(defun c01ra# (vn) (if (< vn 1) 0 (+ (c01ra# (- vn 1)) (vtr vn)))) (vtr (c01ra# 3)) (vtr (c01ra# 2))"},
+	{"dolist.list-form-outside-binding", "(let ((vx (quote (1 2 3))) (vacc nil)) (dolist (vx vx) (setq vacc (cons vx vacc))) (vtr (list vacc vx)))"},
+	{"mvb.values-form-outside-binding", "(let ((va 1)) (multiple-value-bind (va vb) (values (+ va 1) 2) (vtr (list va vb))))"},
 	{"defun.free-var-lexical", "(defun c01fv# (vz) (vtr vq#)) (setq vq# 1) (let ((vq# 2)) (c01fv# 0))"},
 	{"defun.recursion", "(defun c01fact# (vn) (if (< vn 2) 1 (* vn (c01fact# (- vn 1))))) (vtr (c01fact# 5))"},
 	{"defun.late-binding", "(defun c01a# (vz) (c01b# vz)) (defun c01b# (vz) (vtr (+ vz 1))) (c01a# 1)"},
@@ -145,6 +176,9 @@ func evMix(x uint64) uint64 {
 func evRun(c *lib.Ctx, sweep []evCase, nComposite int, ctl bool, avoid func(cell, exit string) bool, relies []string) {
 	c.Rng = lib.NewRng(evMix(c.Seed + 0x5eed))
 	cases := append([]evCase{}, sweep...)
+	if os.Getenv("VERIF_EV_NOSWEEP") != "" { // self-test aid: what do the composite programs alone detect
+		cases = nil
+	}
 	hist := map[string]int{}
 	rejected := []string{}
 	if v := os.Getenv("VERIF_EV_N"); v != "" { // debugging aid: override the number of composite cases
@@ -319,9 +353,9 @@ func evShrink(c *lib.Ctx, cs evCase, aspect string, impl, model evObs, avoid fun
 	budget := 1200 // implementation runs
 	// candidates may run away (an exit that is not forwarded removes the base case of a recursion):
 	// short deadline, and shrinking stops after three such candidates
-	savedDeadline, restarts0 := evDeadline, evRestarts
-	evDeadline = 2 * time.Second
-	defer func() { evDeadline = savedDeadline }()
+	savedLimit, restarts0 := evCPULimit, evRestarts
+	evCPULimit, evNoRetry = time.Second, true
+	defer func() { evCPULimit, evNoRetry = savedLimit, false }()
 	for round := 0; round < 40 && budget > 0; round++ {
 		cands := evShrinkCandidates(cur)
 		if len(cands) == 0 {
